@@ -68,6 +68,44 @@ def gen_retry(repo):
     # that attribute (functools.partial, an instance with __call__) then makes the handler itself raise AttributeError
     needs_name = any(isinstance(x, ast.Attribute) and isinstance(x.value, ast.Name) and x.value.id == 'func'
                      for st in h.body for x in ast.walk(st))
+    # does the handler look at the exception object (`except exceptions as e: … {e} …`, str / repr / format / attribute access,
+    # traceback.format_exc, sys.exc_info)?  An exception whose __str__ / __repr__ raises then makes the handler itself raise
+    reads_exc = (h.name is not None and any(isinstance(x, ast.Name) and x.id == h.name for st in h.body for x in ast.walk(st))) \
+        or any(isinstance(x, ast.Call) and (ast.unparse(x.func).startswith('traceback.') or ast.unparse(x.func) in ('sys.exc_info', 'exc_info', 'format_exc'))
+               for st in h.body for x in ast.walk(st)) \
+        or any(isinstance(x, ast.keyword) and x.arg == 'exc_info' for st in h.body for x in ast.walk(st)) \
+        or any(isinstance(x, ast.Call) and isinstance(x.func, ast.Attribute) and x.func.attr == 'exception' for st in h.body for x in ast.walk(st))
+    # retry_func works on its own locals only: no global / nonlocal, no store into an attribute or an item
+    only_locals = not any(isinstance(x, (ast.Global, ast.Nonlocal)) for x in ast.walk(fn)) and not any(
+        isinstance(t, (ast.Attribute, ast.Subscript)) for x in ast.walk(fn) if isinstance(x, (ast.Assign, ast.AugAssign, ast.AnnAssign))
+        for t in (x.targets if isinstance(x, ast.Assign) else [x.target]))
+    # the decorator `retry`: retry -> decorator -> wrapper, the wrapper is `return retry_func(func, *args, <the four options>, **kwargs)`
+    # and nothing else happens on any level (no object shared between calls of one decorated function or between decorated functions)
+    rt = find_func(tree, 'retry')
+    rb = [x for x in rt.body if not (isinstance(x, ast.Expr) and isinstance(x.value, ast.Constant))]
+    wrapper_forwards = keeps_no_state = False
+    if len(rb) == 2 and isinstance(rb[0], ast.FunctionDef) and isinstance(rb[1], ast.Return) and isinstance(rb[1].value, ast.Name) \
+            and rb[1].value.id == rb[0].name:
+        deco = rb[0]
+        db = [x for x in deco.body if not (isinstance(x, ast.Expr) and isinstance(x.value, ast.Constant))]
+        if len(db) == 2 and isinstance(db[0], ast.FunctionDef) and isinstance(db[1], ast.Return) and isinstance(db[1].value, ast.Name) \
+                and db[1].value.id == db[0].name and len(deco.args.args) == 1:
+            keeps_no_state = True
+            wr = db[0]
+            fparam = deco.args.args[0].arg
+            wb = [x for x in wr.body if not (isinstance(x, ast.Expr) and isinstance(x.value, ast.Constant))]
+            if len(wb) == 1 and isinstance(wb[0], ast.Return) and isinstance(wb[0].value, ast.Call):
+                c = wb[0].value
+                kws = {k.arg: k.value for k in c.keywords}
+                wrapper_forwards = (
+                    isinstance(c.func, ast.Name) and c.func.id == 'retry_func'
+                    and len(c.args) == 2 and isinstance(c.args[0], ast.Name) and c.args[0].id == fparam
+                    and isinstance(c.args[1], ast.Starred) and isinstance(c.args[1].value, ast.Name)
+                    and wr.args.vararg is not None and c.args[1].value.id == wr.args.vararg.arg
+                    and wr.args.kwarg is not None and None in kws and isinstance(kws[None], ast.Name) and kws[None].id == wr.args.kwarg.arg
+                    and not wr.args.args and not wr.args.kwonlyargs
+                    and all(isinstance(kws.get(n), ast.Name) and kws[n].id == n for n in ('attempts', 'exceptions', 'sleep_time', 'logger'))
+                    and set(kws) == {None, 'attempts', 'exceptions', 'sleep_time', 'logger'})
     # the sleep duration is the caller's `sleep_time`
     sleeps = [x for st in h.body for x in ast.walk(st) if isinstance(x, ast.Call) and ast.unparse(x.func) in ('time.sleep', 'sleep')]
     sleep_arg_ok = all(len(x.args) == 1 and ast.unparse(x.args[0]) == 'sleep_time.total_seconds()' for x in sleeps)
@@ -92,6 +130,16 @@ def handlerIsExceptionsParam : Bool := {lean_bool(handler_is_param)}
 def sleepInHandler : Bool := {lean_bool(sleep_in_handler)}
 /-- the handler reads an attribute of `func` (a callable object without it makes the handler raise) -/
 def handlerNeedsName : Bool := {lean_bool(needs_name)}
+/-- the handler looks at the exception object it caught (formats it, reads an attribute, asks for the traceback): an exception whose
+    `__str__` / `__repr__` raises makes the handler itself raise -/
+def handlerReadsException : Bool := {lean_bool(reads_exc)}
+/-- `retry_func` works on its own locals only (no global / nonlocal, no store into an attribute or item) -/
+def retryFuncOnlyLocals : Bool := {lean_bool(only_locals)}
+/-- `retry(...)(func)` is `wrapper(*args, **kwargs) = retry_func(func, *args, attempts=…, exceptions=…, sleep_time=…, logger=…, **kwargs)` -/
+def decoratorWrapperForwards : Bool := {lean_bool(wrapper_forwards)}
+/-- `retry` and its inner `decorator` consist of the nested definition and its return only: nothing is created per decorator or per
+    decorated function that the calls could share -/
+def decoratorKeepsNoState : Bool := {lean_bool(keeps_no_state)}
 /-- every sleep waits `sleep_time.total_seconds()` -/
 def sleepArgIsSleepTime : Bool := {lean_bool(sleep_arg_ok)}
 /-- `time.sleep(...)` occurs anywhere else in the function -/
